@@ -190,7 +190,11 @@ func genModuleSetOpt(r *rng, wantConflicts int, crowd bool) *wlMerge {
 	m := genDSLModel(r)
 	wl := &wlMerge{Variant: "base", Schema: []string{"1.2", "1.1", "1.2", "2.0-x"}[r.intn(4)]}
 	nmod := 1 + r.intn(4)
-	many := r.chance(5) || crowd // 8-16 files: beyond "a handful" thresholds
+	many := r.chance(5) || crowd  // 8-16 files: beyond "a handful" thresholds
+	huge := !crowd && r.chance(1) // 20-72 files: thresholds of 32 and 64 files
+	if huge {
+		many = true
+	}
 	if many {
 		nmod = 4 + r.intn(3)
 	}
@@ -199,6 +203,9 @@ func genModuleSetOpt(r *rng, wantConflicts int, crowd bool) *wlMerge {
 		nf := 1 + r.intn(2)
 		if many {
 			nf = 2 + r.intn(2)
+		}
+		if huge {
+			nf = 5 + r.intn(8)
 		}
 		for j := 0; j < nf; j++ {
 			name := modNames[i] + ".fga"
